@@ -616,6 +616,8 @@ pub fn run_group(bytes: &[u8], spec: &GroupSpec, partner: Option<&[u8]>, st: &mu
             "charmap" => group_charmap(font, spec, &mut rng, st),
             "unhinted" => group_unhinted(font, spec, &mut rng, st),
             "memory" => group_memory(font, spec, &mut rng, st),
+            "memsweep" => group_memsweep(font, spec, st),
+            "strings" => group_strings(font, spec, &mut rng, st),
             "hint" => {
                 let mut it = g.split(':').skip(1);
                 let e: usize = it.next().and_then(|s| s.parse().ok()).unwrap_or(0);
@@ -973,6 +975,237 @@ fn group_memory(font: &FontRef, spec: &GroupSpec, rng: &mut Rng, st: &mut Stats)
             }
         }
     }
+}
+
+/// Glyph ids of up to `want` cheapest-to-sweep glyphs of each kind (simple / composite) among the first
+/// 600 glyphs: (gid, is_composite), ordered by advertised hinted memory size.
+pub fn memsweep_candidates(font: &FontRef, want: usize) -> Vec<(u32, bool)> {
+    let oc = font.outline_glyphs();
+    let n = info(font).n_glyphs.min(600);
+    let (loca, glyf) = match (font.loca(None), font.glyf()) {
+        (Ok(l), Ok(g)) => (l, g),
+        _ => return vec![],
+    };
+    let mut simple: Vec<(usize, u32)> = vec![];
+    let mut comp: Vec<(usize, u32)> = vec![];
+    for g in 0..n {
+        let gid = GlyphId::new(g);
+        let Some(og) = oc.get(gid) else { continue };
+        let adv = og.draw_memory_size(Hinting::Embedded);
+        if adv == 0 || adv > MEMSWEEP_MAX_ADVERTISED {
+            continue;
+        }
+        match loca.get_glyf(gid, &glyf) {
+            Ok(Some(skrifa::raw::tables::glyf::Glyph::Composite(_))) => comp.push((adv, g)),
+            Ok(Some(_)) => simple.push((adv, g)),
+            _ => {}
+        }
+    }
+    simple.sort_unstable();
+    comp.sort_unstable();
+    let mut v: Vec<(u32, bool)> = vec![];
+    // the smallest ones, and one mid-sized of each kind
+    for (list, c) in [(&simple, false), (&comp, true)] {
+        for (_, g) in list.iter().take(want) {
+            v.push((*g, c));
+        }
+        if list.len() > want {
+            v.push((list[want + (list.len() - want) / 2].1, c));
+        }
+    }
+    v
+}
+
+pub const MEMSWEEP_MAX_ADVERTISED: usize = 6000;
+/// 3 smallest + 1 mid-sized glyph of each kind (simple, composite)
+pub const MEMSWEEP_SLOTS: usize = 8;
+
+/// EVERY caller-buffer length 0..=advertised+8 at EVERY start alignment 0..7 for one small glyph
+/// (`spec.index` = candidate slot): both path styles unhinted, interpreter- and auto-hinted, at the
+/// default and at a non-default location. Every outcome must be `Ok` or an error value.
+fn group_memsweep(font: &FontRef, spec: &GroupSpec, st: &mut Stats) {
+    let cands = memsweep_candidates(font, 3);
+    st.call();
+    let Some(&(g, composite)) = cands.get(spec.index as usize) else {
+        st.count("memsweep_no_candidate", 1);
+        return;
+    };
+    let i = info(font);
+    let oc = font.outline_glyphs();
+    let Some(og) = oc.get(GlyphId::new(g)) else { return };
+    let mut locs: Vec<Vec<NormalizedCoord>> = vec![vec![]];
+    if i.axis_count > 0 {
+        locs.push((0..i.axis_count).map(|k| c(if k % 2 == 0 { 0x2000 } else { -0x4000 })).collect());
+    }
+    st.count(if composite { "memsweep_glyphs:composite" } else { "memsweep_glyphs:simple" }, 1);
+    st.count(if i.axis_count > 0 { "memsweep_glyphs:variable-font" } else { "memsweep_glyphs:static-font" }, 1);
+    let mut owner = vec![0xAAu8; MEMSWEEP_MAX_ADVERTISED + 64];
+    let base = owner.as_ptr() as usize;
+    let base_off = (8 - base % 8) % 8;
+    let mut sweep = |st: &mut Stats, what: &str, adv: usize, draw: &mut dyn FnMut(&mut [u8]) -> Result<skrifa::outline::AdjustedMetrics, DrawError>| {
+        let adv = adv.min(MEMSWEEP_MAX_ADVERTISED);
+        let (mut ok, mut insufficient, mut other) = (0u64, 0u64, 0u64);
+        let mut min_ok = [usize::MAX; 8];
+        for al in 0..8usize {
+            for len in 0..=adv + 8 {
+                let off = base_off + al;
+                let r = draw(&mut owner[off..off + len]);
+                st.calls += 1;
+                match &r {
+                    Ok(_) => {
+                        ok += 1;
+                        min_ok[al] = min_ok[al].min(len);
+                    }
+                    Err(DrawError::InsufficientMemory) => insufficient += 1,
+                    Err(e) => {
+                        other += 1;
+                        st.label("draw_errors", variant_name(e));
+                    }
+                }
+            }
+        }
+        st.ok += ok;
+        st.err += insufficient + other;
+        st.count("memsweep_draws", ok + insufficient + other);
+        st.count("memsweep_draw_ok", ok);
+        st.count("memsweep_draw_insufficient_memory", insufficient);
+        st.count(&format!("memsweep_sweeps:{}", what), 1);
+        // aligned buffers of the advertised size must do
+        if min_ok[0] != usize::MAX && min_ok[0] > adv {
+            st.count("memory_insufficient_despite_advertised_len", 1);
+        }
+        st.distinct("advertised_memory_sizes", adv as u64);
+    };
+    for (li, loc) in locs.iter().enumerate() {
+        let lref = LocationRef::new(loc);
+        let adv = og.draw_memory_size(Hinting::None);
+        for style in [PathStyle::FreeType, PathStyle::HarfBuzz] {
+            for size in [Size::new(16.0), Size::unscaled()] {
+                if size.ppem().is_none() && li == 0 {
+                    continue;
+                }
+                let what = format!("unhinted:{:?}:{}", style, if li == 0 { "default-location" } else { "non-default-location" });
+                sweep(st, &what, adv, &mut |buf| {
+                    let mut pen = CountPen::default();
+                    og.draw(DrawSettings::unhinted(size, lref).with_memory(Some(buf)).with_path_style(style), &mut pen)
+                });
+            }
+        }
+        let adv = og.draw_memory_size(Hinting::Embedded);
+        for (e, name) in [(0usize, "interpreter"), (1, "auto")] {
+            let inst = HintingInstance::new(&oc, Size::new(16.0), lref, options(e, 1 + li, &oc));
+            st.res("hint_instance_errors", &inst);
+            let Ok(inst) = inst else { continue };
+            let what = format!("hinted:{}:{}", name, if li == 0 { "default-location" } else { "non-default-location" });
+            sweep(st, &what, adv, &mut |buf| {
+                let mut pen = CountPen::default();
+                og.draw(DrawSettings::hinted(&inst, li == 1).with_memory(Some(buf)), &mut pen)
+            });
+        }
+    }
+    if !(owner[..base_off].iter().all(|b| *b == 0xAA) && owner[base_off + 8 + MEMSWEEP_MAX_ADVERTISED + 8..].iter().all(|b| *b == 0xAA)) {
+        st.notes.push("scratch guard bytes modified".into());
+    }
+}
+
+/// Every string API on every name id the font mentions (name records, fvar axes and instances) and on
+/// boundary ids; every glyph name.
+fn group_strings(font: &FontRef, spec: &GroupSpec, rng: &mut Rng, st: &mut Stats) {
+    let mut ids: Vec<u16> = (0..=25).collect();
+    ids.extend([255u16, 256, 257, 258, 259, 0x7FFF, 0x8000, 0xFFFE, 0xFFFF, rng.u32() as u16]);
+    if let Ok(name) = font.name() {
+        st.call();
+        for r in name.name_record().iter().take(2000) {
+            ids.push(r.name_id().to_u16());
+        }
+    }
+    let axes = font.axes();
+    for ax in axes.iter().take(64) {
+        ids.push(ax.name_id().to_u16());
+    }
+    let ni = font.named_instances();
+    for inst in ni.iter().take(200) {
+        ids.push(inst.subfamily_name_id().to_u16());
+        if let Some(p) = inst.postscript_name_id() {
+            ids.push(p.to_u16());
+        }
+    }
+    st.call();
+    ids.sort_unstable();
+    ids.dedup();
+    let cap = if spec.level >= 1 { 400 } else { 60 };
+    let mut longest_lang = 0usize;
+    for id in ids.into_iter().take(cap) {
+        let id = StringId::new(id);
+        let ls = font.localized_strings(id);
+        st.call();
+        let _ = ls.id();
+        // first element alone (what a caller that only wants "a" name does)
+        let first = ls.clone().next();
+        st.opt(&first);
+        if let Some(f) = &first {
+            let _ = f.language().map(|l| l.len());
+            let _ = format!("{:?}", f).len();
+        }
+        let e = ls.clone().english_or_first();
+        st.opt(&e);
+        if let Some(e) = e {
+            longest_lang = longest_lang.max(e.language().map(|l| l.len()).unwrap_or(0));
+            let _ = e.chars().take(200_000).count();
+            let _ = e.to_string().len();
+            st.call();
+        }
+        let mut k = 0u64;
+        for s in ls {
+            k += 1;
+            if k > 3000 {
+                break;
+            }
+            match s.language() {
+                Some(l) => {
+                    longest_lang = longest_lang.max(l.len());
+                    st.count("strings_with_language", 1);
+                    if !l.is_ascii() {
+                        st.notes.push("non-ASCII language tag returned".into());
+                    }
+                }
+                None => st.count("strings_without_language", 1),
+            }
+            let n = s.chars().take(200_000).count();
+            let t = s.to_string();
+            let _ = (n, t.len(), format!("{}", s).len());
+            let s2 = s.clone();
+            let _ = s2.chars().last();
+            st.call();
+        }
+        st.count("localized_strings_seen", k.min(3000));
+    }
+    st.distinct("language_tag_lengths_returned", longest_lang as u64);
+    // glyph names: every glyph (capped), and ids around the end
+    let gn = font.glyph_names();
+    st.call();
+    st.label("glyph_name_sources", format!("{:?}", gn.source()));
+    let ng = gn.num_glyphs();
+    let mut longest = 0usize;
+    for g in (0..ng.min(3000)).chain([ng, ng.wrapping_add(1), 0xFFFF, 0x10000, u32::MAX]) {
+        let nm = gn.get(GlyphId::new(g));
+        st.opt(&nm);
+        if let Some(nm) = nm {
+            longest = longest.max(nm.as_str().len());
+            let _ = (nm.is_synthesized(), format!("{}{:?}", nm, nm).len(), nm == "a");
+        }
+    }
+    st.distinct("glyph_name_lengths_returned", longest as u64);
+    let mut k = 0u64;
+    for (_g, nm) in gn.iter() {
+        k += 1;
+        if k > 70_000 {
+            break;
+        }
+        let _ = nm.as_str().len();
+    }
+    st.call();
+    st.count("glyph_names_iterated", k);
 }
 
 fn use_instance(inst: &HintingInstance, st: &mut Stats) {
